@@ -214,10 +214,36 @@ func c21(r *simk.Run) *simk.Violation {
 					}
 				}
 				sort.SliceStable(rej, func(i, j int) bool { return rej[i].blk.Hght < rej[j].blk.Hght })
-				for _, p := range rej {
+				for ri, p := range rej {
 					trace = append(trace, fmt.Sprintf("reject(s%d)", p.blk.Salt))
 					_ = p.handle.Reject(ctx)
 					delete(processing, p.blk.id)
+					// a block whose parent has just been rejected cannot be verified any more
+					for _, q := range rej[ri+1:] {
+						if q.blk.Prnt == p.blk.id || !processingHas(processing, q.blk.Prnt) && q.blk.Prnt != b.id && !onMain(main, q.blk.Prnt) {
+							q.wantValid = false
+						}
+					}
+					// the engine rejects block by block; the sync client may finish in between (it does not
+					// synchronise with the engine's decisions)
+					if ri+1 < len(rej) && c.Bool(0.35) {
+						if !finishStarted {
+							finishStarted = true
+							s.Go("statesync.finish", 0, finisher)
+						}
+						s.Yield("engine.between-rejects", uint64(ri))
+						select {
+						case <-finished:
+							s.Probe("sync_finished_between_two_rejects")
+							if finishErr == nil {
+								if _, herr := vm.HealthCheck(ctx); herr == nil {
+									fail("healthy-with-failed-processing-block", "state sync finished between two rejects of one branch: %d blocks of the rejected branch are still processing and cannot be verified, but the health check passes; trace=%v", len(rej)-ri-1, trace)
+									return
+								}
+							}
+						default:
+						}
+					}
 				}
 			case 1: // a processing block beyond the tip: main-chain block, side block, invalid block, or child of a processing block
 				var parent *TBlock
@@ -416,4 +442,18 @@ func c21(r *simk.Run) *simk.Violation {
 		return &simk.Violation{Class: "C21/hang", Detail: fmt.Sprintf("state sync scenario never finished: parked=[%s] trace=%v", s.HangInfo, trace)}
 	}
 	return nil
+}
+
+func processingHas[T any](m map[ids.ID]T, id ids.ID) bool {
+	_, ok := m[id]
+	return ok
+}
+
+func onMain(main []*TBlock, id ids.ID) bool {
+	for _, b := range main {
+		if b.id == id {
+			return true
+		}
+	}
+	return false
 }
